@@ -181,6 +181,7 @@ def tlc(ctx, module, cfg, workers=16, simulate=None, depth=None, seed=None, time
                              wall_s=round(r.wall, 2), cases=len(r.cases) + len(r.behaviours),
                              simulate=simulate))
     shutil.rmtree(d, ignore_errors=True)
+    log("[tlc] %s/%s: %d distinct, %d generated, %d cases, %.1fs" % (module, cfg, r.distinct, r.generated, len(r.cases) + len(r.behaviours), r.wall))
     return r
 
 
